@@ -24,3 +24,13 @@ MUTANTS = [
      [("src/pptx/shapes/shapetree.py", "            if name not in names:\n                break\n            numpart += 1", "            break")],
      "R13.4 _next_ph_name"),
 ]
+
+MUTANTS += [
+    ("idx-store-conditional", "ph.idx stored only for text placeholders",
+     [("src/pptx/oxml/shapes/autoshape.py", "        ph.idx = idx\n", ""),
+      ("src/pptx/oxml/shapes/autoshape.py", "        if ph_type in placeholder_types_that_have_a_text_frame:\n", "        if ph_type in placeholder_types_that_have_a_text_frame:\n            ph.idx = idx\n")],
+     "R13.2 ph_idx->ph.idx"),
+    ("subtitle-inherits-subtitle", "SUBTITLE inherits from a master subtitle",
+     [("src/pptx/shapes/placeholder.py", "            PP_PLACEHOLDER.SUBTITLE: PP_PLACEHOLDER.BODY,", "            PP_PLACEHOLDER.SUBTITLE: PP_PLACEHOLDER.SUBTITLE,")],
+     "R13.5 base_ph_type[SUBTITLE]"),
+]
